@@ -10,7 +10,7 @@ PROP = {
          "InverseMatcher could stop on a deleted"],
  "C05": ["AndNotMatcher.skip_to_quality", "RequireMatcher.skip_to_quality", "additive matchers skipped", "stale cached document id",
          "InverseMatcher reported", "collapsing a limited search", "DisjunctionMaxMatcher.replace dropped", "limited searches crashed",
-         "limited searches with a final", "AndMaybeMatcher.replace() without", "asked an exhausted sub-matcher"],
+         "limited searches with a final", "AndMaybeMatcher.replace() without", "asked an exhausted sub-matcher", "could return a deleted document", "did not re-check spans after a quality skip"],
  "C09": ["DisjunctionMaxMatcher scored", "DFree weighting"],
  "C12": ["PL2 claimed", "ReverseWeighting advertised", "ArrayUnionMatcher.max_quality"],
  "C11": ["W3LeafMatcher did not implement copy", "UnionMatcher.reset()", "AndMaybeMatcher.skip_to()", "span matchers did not",
@@ -30,7 +30,7 @@ PROP = {
  "C13": ["numeric ranges at the bottom", "empty numeric intervals", "decimal_places=N", "NUMERIC(float, signed=False)"],
  "C08": ["multi-segment column reader", "VarBytesColumn lost", "several column types had no default", "iterating a CompressedBytesColumn", "NUMERIC(default=x, sortable=True)", "sortable DATETIME field failed"],
  "C19": ["terms_within", "prefix longer than the word"],
- "C17": [], "C04": ["RamStorage"], "C18": ["BufferedWriter"], "C02": [], "C03": [], "C06": [], "C07": [],
+ "C17": ["MultiFilter crashed", "BiWordFilter failed", "IntraWordFilter(", "IntraWordFilter missed", "CharsetTokenizer", "highlighter marked stop words", "highlighting without recorded terms", "NgramTokenizer produced"], "C04": ["RamStorage"], "C18": ["BufferedWriter"], "C02": [], "C03": [], "C06": [], "C07": [],
 }
 log = subprocess.run(["git", "-C", "/repo", "log", "--reverse", "--format=%h\t%s"], capture_output=True, text=True).stdout
 fixed = []
